@@ -14,13 +14,15 @@
    total reward  Jn m pol T hist s  of an arbitrary HISTORY-DEPENDENT RANDOMISED policy pol
    (model/Multichain.v), for every horizon T:
      C16_gain_upper_bound :   Jn <= T*(gain s + slack) + W     for EVERY policy         (optimal)
-     C16_gain_attained    :   Jn >= T*(gain s - slack) - W     for every policy inside the returned
-                              support, e.g. the returned policy evaluated exactly       (attained)
+     C16_gain_attained    :   Jn >= T*(gain s - slack) - W     for the returned policy evaluated exactly
+                              (uniform on the support of the returned matrix)           (attained)
+     C16_gain_attained_by_every_supported_policy : the same for EVERY policy inside the returned
+                              support, under the extra per-action certificate c16_tight_check
    with W independent of T and of the policy; C16_gain_optimal is the limit form (averages).
    slack = |state_gain - g'| tolerance + certificate slack (both ~1e-8, the code works at 10
    decimals); with slack 0 the statement is exact optimality of the gain.
-   The certificate (g', w) is supplied by the harness: g' = exact gain of the returned policy,
-   w = h + M*g'; its origin is irrelevant to soundness.
+   The certificate (g', w, h') is supplied by the harness: (g', h') = exact gain and bias of the
+   returned policy (exact linear algebra), w = h + M*g'; its origin is irrelevant to soundness.
    Proof: induction on T from LP dual feasibility; no ergodic theory.
 
    Discounted (gamma < 1).  "Optimal value" = any fixed point Vs of the optimality operator
@@ -53,9 +55,9 @@ Print Assumptions C16_tight_policy_lower.
 
 (* ---------- undiscounted: the reported gain is the optimal long-run average ---------- *)
 Theorem C16_gain_upper_bound :
-  forall nS nA P Rw av ab ini gm g h Pi ig iv g' w dup dlo gt pt it,
+  forall nS nA P Rw av ab ini gm g h Pi ig iv g' w h' dup dlo gt pt it,
   @c16_gain_check Q NumQ (mk_mdp nS nA P Rw av ab ini gm) (mk_mc g h Pi ig iv)
-                  (mk_gc g' w dup dlo gt pt it) = gain_all_true ->
+                  (mk_gc g' w h' dup dlo gt pt it) = gain_all_true ->
   0 <= Q2R dup -> 0 <= Q2R gt ->
   exists W, 0 <= W /\
     forall pol, wfh (mR nS nA P Rw av ab ini gm) pol -> forall T hist s, (s < nS)%nat ->
@@ -65,26 +67,44 @@ Proof. exact main_gain_upper. Qed.
 Print Assumptions C16_gain_upper_bound.
 
 Theorem C16_gain_attained :
-  forall nS nA P Rw av ab ini gm g h Pi ig iv g' w dup dlo gt pt it,
+  forall nS nA P Rw av ab ini gm g h Pi ig iv g' w h' dup dlo gt pt it,
   @c16_gain_check Q NumQ (mk_mdp nS nA P Rw av ab ini gm) (mk_mc g h Pi ig iv)
-                  (mk_gc g' w dup dlo gt pt it) = gain_all_true ->
+                  (mk_gc g' w h' dup dlo gt pt it) = gain_all_true ->
   0 <= Q2R dlo -> 0 <= Q2R gt ->
+  exists W, 0 <= W /\
+    forall T hist s, (s < nS)%nat ->
+      INR T * (og (ocR g h Pi ig iv) s - (Q2R gt + Q2R dlo)) - W
+        <= Jn (mR nS nA P Rw av ab ini gm)
+              (stationary (upol (mR nS nA P Rw av ab ini gm) (ocR g h Pi ig iv))) T hist s.
+Proof. exact main_gain_attained. Qed.
+Print Assumptions C16_gain_attained.
+
+(* stronger, under the additional (evaluated, non-gating) per-action certificate: every
+   history-dependent policy that stays inside the returned support attains the gain *)
+Theorem C16_gain_attained_by_every_supported_policy :
+  forall nS nA P Rw av ab ini gm g h Pi ig iv g' w h' dup dlo gt pt it,
+  @c16_gain_check Q NumQ (mk_mdp nS nA P Rw av ab ini gm) (mk_mc g h Pi ig iv)
+                  (mk_gc g' w h' dup dlo gt pt it) = gain_all_true ->
+  forall d,
+  @c16_tight_check Q NumQ (mk_mdp nS nA P Rw av ab ini gm) (mk_mc g h Pi ig iv)
+                   (mk_gc g' w h' dup dlo gt pt it) d = true ->
+  0 <= Q2R d -> 0 <= Q2R gt ->
   exists W, 0 <= W /\
     forall pol, wfh (mR nS nA P Rw av ab ini gm) pol ->
       supported (mR nS nA P Rw av ab ini gm) pol (opi (ocR g h Pi ig iv)) ->
       forall T hist s, (s < nS)%nat ->
-        INR T * (og (ocR g h Pi ig iv) s - (Q2R gt + Q2R dlo)) - W
+        INR T * (og (ocR g h Pi ig iv) s - (Q2R gt + Q2R d)) - W
           <= Jn (mR nS nA P Rw av ab ini gm) pol T hist s.
-Proof. exact main_gain_attained. Qed.
-Print Assumptions C16_gain_attained.
+Proof. exact main_gain_attained_support. Qed.
+Print Assumptions C16_gain_attained_by_every_supported_policy.
 
 (* limit form: the returned policy, evaluated exactly (uniform on its support), is a policy of
    the MDP whose averages are eventually >= gain - slack - eps, while no policy's averages
    eventually exceed gain + slack + eps *)
 Theorem C16_gain_optimal :
-  forall nS nA P Rw av ab ini gm g h Pi ig iv g' w dup dlo gt pt it,
+  forall nS nA P Rw av ab ini gm g h Pi ig iv g' w h' dup dlo gt pt it,
   @c16_gain_check Q NumQ (mk_mdp nS nA P Rw av ab ini gm) (mk_mc g h Pi ig iv)
-                  (mk_gc g' w dup dlo gt pt it) = gain_all_true ->
+                  (mk_gc g' w h' dup dlo gt pt it) = gain_all_true ->
   forall eps, 0 <= Q2R dup -> 0 <= Q2R dlo -> 0 <= Q2R gt -> 0 < eps ->
   wfh (mR nS nA P Rw av ab ini gm)
       (stationary (upol (mR nS nA P Rw av ab ini gm) (ocR g h Pi ig iv))) /\
@@ -102,18 +122,18 @@ Proof. exact main_gain_optimal. Qed.
 Print Assumptions C16_gain_optimal.
 
 Theorem C16_gain_policy_available :
-  forall nS nA P Rw av ab ini gm g h Pi ig iv g' w dup dlo gt pt it,
+  forall nS nA P Rw av ab ini gm g h Pi ig iv g' w h' dup dlo gt pt it,
   @c16_gain_check Q NumQ (mk_mdp nS nA P Rw av ab ini gm) (mk_mc g h Pi ig iv)
-                  (mk_gc g' w dup dlo gt pt it) = gain_all_true ->
+                  (mk_gc g' w h' dup dlo gt pt it) = gain_all_true ->
   forall s a, (s < nS)%nat -> (a < nA)%nat -> 0 < opi (ocR g h Pi ig iv) s a ->
     avail (mR nS nA P Rw av ab ini gm) s a = true.
 Proof. exact main_gain_policy_available. Qed.
 Print Assumptions C16_gain_policy_available.
 
 Theorem C16_gain_policy_uniform :
-  forall nS nA P Rw av ab ini gm g h Pi ig iv g' w dup dlo gt pt it,
+  forall nS nA P Rw av ab ini gm g h Pi ig iv g' w h' dup dlo gt pt it,
   @c16_gain_check Q NumQ (mk_mdp nS nA P Rw av ab ini gm) (mk_mc g h Pi ig iv)
-                  (mk_gc g' w dup dlo gt pt it) = gain_all_true ->
+                  (mk_gc g' w h' dup dlo gt pt it) = gain_all_true ->
   forall s a, (s < nS)%nat -> (a < nA)%nat ->
   (0 < opi (ocR g h Pi ig iv) s a ->
      Rabs (opi (ocR g h Pi ig iv) s a
@@ -123,9 +143,9 @@ Proof. exact main_gain_policy_uniform. Qed.
 Print Assumptions C16_gain_policy_uniform.
 
 Theorem C16_gain_initial :
-  forall nS nA P Rw av ab ini gm g h Pi ig iv g' w dup dlo gt pt it,
+  forall nS nA P Rw av ab ini gm g h Pi ig iv g' w h' dup dlo gt pt it,
   @c16_gain_check Q NumQ (mk_mdp nS nA P Rw av ab ini gm) (mk_mc g h Pi ig iv)
-                  (mk_gc g' w dup dlo gt pt it) = gain_all_true ->
+                  (mk_gc g' w h' dup dlo gt pt it) = gain_all_true ->
   Rabs (oig (ocR g h Pi ig iv)
         - sumf nS (fun s => init (mR nS nA P Rw av ab ini gm) s * og (ocR g h Pi ig iv) s)) <= Q2R it /\
   Rabs (oiv (ocR g h Pi ig iv)
@@ -207,8 +227,12 @@ Print Assumptions C16_discounted_gain_zero.
 Theorem C16_nonvacuous :
   @c16_gain_check Q NumQ (mk_mdp 4 2 mxP mxR mxAv mxAb mxIni 1%Q)
      (mk_mc mxG mxH mxPi (3#2)%Q (-1 + (1#2000000000))%Q)
-     (mk_gc mxG' mxW (1#100000000)%Q (1#100000000)%Q (1#100000000)%Q (1#1000000000)%Q (1#100000000)%Q)
+     (mk_gc mxG' mxW mxH' (1#100000000)%Q 0%Q (1#100000000)%Q (1#1000000000)%Q (1#100000000)%Q)
     = gain_all_true /\
+  @c16_tight_check Q NumQ (mk_mdp 4 2 mxP mxR mxAv mxAb mxIni 1%Q)
+     (mk_mc mxG mxH mxPi (3#2)%Q (-1 + (1#2000000000))%Q)
+     (mk_gc mxG' mxW mxH' (1#100000000)%Q 0%Q (1#100000000)%Q (1#1000000000)%Q (1#100000000)%Q)
+     (1#100000000)%Q = true /\
   wfh (mR 4 2 mxP mxR mxAv mxAb mxIni 1%Q)
       (stationary (fun s a => if Nat.eqb s 0 || Nat.eqb s 2 then (if Nat.eqb a 1 then 1 else 0)
                               else (if Nat.eqb a 0 then 1 else 0))) /\
@@ -217,5 +241,5 @@ Theorem C16_nonvacuous :
      (mkDT (1#100000)%Q (1#100000)%Q (1#1000000000)%Q (1#1000000000000)%Q (1#1000000)%Q)
     = gain_all_true /\
   fixpoint (mR 3 2 exP exR exAv exAb exIni (1#2)%Q) (untab (map Q2R exVs)).
-Proof. exact (conj mx_check (conj mx_other_policy (conj dx_check ex_fix))). Qed.
+Proof. exact (conj mx_check (conj mx_tight (conj mx_other_policy (conj dx_check ex_fix)))). Qed.
 Print Assumptions C16_nonvacuous.
